@@ -3,6 +3,7 @@
 package keeper
 
 import (
+	"context"
 	"cosmossdk.io/math"
 	sdk "github.com/cosmos/cosmos-sdk/types"
 
@@ -124,5 +125,18 @@ func symFinalizeDeposit() *types.MsgFinalizeTokenDeposit {
 		Height:    verifSymU64("req.height"),
 		BaseDenom: verifSymStr("req.baseDenom"),
 		Data:      verifOpaqueBytes("req.data"),
+	}
+}
+
+// routed: what baseapp's MsgServiceRouter does around a module handler (read from the pinned SDK,
+// baseapp/msg_service_router.go): the handler runs on a FRESH event manager, and the events it emitted come back
+// in the Result — they reach the caller's context only if the caller forwards them.
+func routed(h func(c sdk.Context) error) func(c context.Context, m sdk.Msg) (*sdk.Result, error) {
+	return func(c context.Context, m sdk.Msg) (*sdk.Result, error) {
+		inner := sdk.UnwrapSDKContext(c).WithEventManager(sdk.NewEventManager())
+		if err := h(inner); err != nil {
+			return nil, err
+		}
+		return &sdk.Result{Events: inner.EventManager().ABCIEvents()}, nil
 	}
 }
